@@ -2,6 +2,7 @@
 C14 — descriptors decode/encode per spec; declared lengths always match emitted bytes.
 -/
 import Astits.Model.Desc
+import Astits.Proofs.DescLengths
 namespace Astits.C14
 
 /-- a descriptor's body as the writers emit it has the computed length (the condition is decidable and is checked
@@ -56,5 +57,621 @@ theorem framing_seek (i : It) (endOff : Int) : (It.seek endOff i) = .ok ((), { i
 
 example : BodyFits { tag := 0x90, userDefined := [1, 2, 3] } := by unfold BodyFits; decide
 example : writeDescriptor { tag := 0x90, userDefined := [1, 2, 3], length := 0 } = [0x90, 3, 1, 2, 3] := by decide
+
+
+/-! ## Typed descriptor kinds: `BodyFits` proved per kind (helper lemmas in `Astits/Proofs/DescLengths.lean`)
+
+`bodySize d` is the un-truncated number of bytes of the body (`int ret` of the Go calculators before `uint8(ret)`).
+For EVERY descriptor value the writer selected by the tag emits exactly `bodySize d` bytes (`body_length`) and the
+calculator returns `bodySize d % 256` (`calc_length`); hence `BodyFits d ↔ bodySize d < 256` (`body_fits_iff`): the
+ONLY way the declared length can differ from the emitted bytes is the `uint8` truncation of a body of 256 bytes or
+more. No calculator/writer pair of the model disagrees on an in-range value. The per-kind theorems
+`body_fits_<kind>` spell the guard out in terms of the fields; `body_fits_<kind>_iff` shows the guard is exact.
+Fixed-size language / country codes need NO hypothesis: `WriteBytesN(bs, 3, 0)` emits exactly 3 bytes whatever
+`len(bs)` is (`DescLen.wBytesN_length`). -/
+
+section Typed
+open Astits.DescLen
+set_option linter.unusedSimpArgs false
+
+/-- un-truncated size of the body selected by the tag: the same `switch` as `calcDescriptorLength` / `descriptorBody`
+with the per-kind `int` sums of `Astits.DescLen` (no `uint8` conversion); a nil sub-struct counts 0 -/
+def bodySize (d : Descriptor) : Nat :=
+  if isUserDefinedTag d.tag then d.userDefined.length
+  else if d.tag = descriptorTagAC3 then nilOr ac3Size d.ac3
+  else if d.tag = descriptorTagAVCVideo then nilOr (fun _ => 4) d.avcVideo
+  else if d.tag = descriptorTagComponent then nilOr componentSize d.component
+  else if d.tag = descriptorTagContent then nilOr contentSize d.content
+  else if d.tag = descriptorTagDataStreamAlignment then nilOr (fun _ => 1) d.dataStreamAlignment
+  else if d.tag = descriptorTagEnhancedAC3 then nilOr enhancedAC3Size d.enhancedAC3
+  else if d.tag = descriptorTagExtendedEvent then nilOr extendedEventSize d.extendedEvent
+  else if d.tag = descriptorTagExtension then nilOr extensionSize d.extension
+  else if d.tag = descriptorTagISO639LanguageAndAudioType then nilOr (fun _ => 4) d.iso639LanguageAndAudioType
+  else if d.tag = descriptorTagLocalTimeOffset then nilOr localTimeOffsetSize d.localTimeOffset
+  else if d.tag = descriptorTagMaximumBitrate then nilOr (fun _ => 3) d.maximumBitrate
+  else if d.tag = descriptorTagNetworkName then nilOr networkNameSize d.networkName
+  else if d.tag = descriptorTagParentalRating then nilOr parentalRatingSize d.parentalRating
+  else if d.tag = descriptorTagPrivateDataIndicator then nilOr (fun _ => 4) d.privateDataIndicator
+  else if d.tag = descriptorTagPrivateDataSpecifier then nilOr (fun _ => 4) d.privateDataSpecifier
+  else if d.tag = descriptorTagRegistration then nilOr registrationSize d.registration
+  else if d.tag = descriptorTagService then nilOr serviceSize d.service
+  else if d.tag = descriptorTagShortEvent then nilOr shortEventSize d.shortEvent
+  else if d.tag = descriptorTagStreamIdentifier then nilOr (fun _ => 1) d.streamIdentifier
+  else if d.tag = descriptorTagSubtitling then nilOr subtitlingSize d.subtitling
+  else if d.tag = descriptorTagTeletext then nilOr teletextSize d.teletext
+  else if d.tag = descriptorTagVBIData then nilOr vbiDataSize d.vbiData
+  else if d.tag = descriptorTagVBITeletext then nilOr teletextSize d.vbiTeletext
+  else nilOr unknownSize d.unknown
+
+theorem nil_length {α} (f : α → Bytes) (g : α → Nat) (h : ∀ x, (f x).length = g x) (o : Option α) :
+    (nilBody f o).length = nilOr g o := by
+  cases o with
+  | none => rfl
+  | some x => exact h x
+
+theorem nil_calc {α} (c : α → Nat) (g : α → Nat) (h : ∀ x, c x = g x % 256) (o : Option α) :
+    nilOr c o = nilOr g o % 256 := by
+  cases o with
+  | none => rfl
+  | some x => exact h x
+
+theorem ite_len (c : Prop) [Decidable c] {a b : Bytes} {a' b' : Nat} (h1 : a.length = a') (h2 : b.length = b') :
+    (if c then a else b).length = if c then a' else b' := by
+  split <;> assumption
+
+theorem ite_mod (c : Prop) [Decidable c] {a b a' b' : Nat} (h1 : a = a' % 256) (h2 : b = b' % 256) :
+    (if c then a else b) = (if c then a' else b') % 256 := by
+  split <;> assumption
+
+theorem body_length (d : Descriptor) : (descriptorBody d).length = bodySize d := by
+  unfold descriptorBody bodySize
+  repeat' apply ite_len
+  all_goals first
+    | rfl
+    | exact nil_length _ _ ac3_length _
+    | exact nil_length _ _ avcVideo_length _
+    | exact nil_length _ _ component_length _
+    | exact nil_length _ _ content_length _
+    | exact nil_length _ _ dataStreamAlignment_length _
+    | exact nil_length _ _ enhancedAC3_length _
+    | exact nil_length _ _ extendedEvent_length _
+    | exact nil_length _ _ extension_length _
+    | exact nil_length _ _ iso639_length _
+    | exact nil_length _ _ localTimeOffset_length _
+    | exact nil_length _ _ maximumBitrate_length _
+    | exact nil_length _ _ networkName_length _
+    | exact nil_length _ _ parentalRating_length _
+    | exact nil_length _ _ privateDataIndicator_length _
+    | exact nil_length _ _ privateDataSpecifier_length _
+    | exact nil_length _ _ registration_length _
+    | exact nil_length _ _ service_length _
+    | exact nil_length _ _ shortEvent_length _
+    | exact nil_length _ _ streamIdentifier_length _
+    | exact nil_length _ _ subtitling_length _
+    | exact nil_length _ _ teletext_length _
+    | exact nil_length _ _ vbiData_length _
+    | exact nil_length _ _ unknown_length _
+
+/-- the calculator returns the un-truncated size modulo 256 (the final `uint8(ret)`), for every descriptor -/
+theorem calc_length (d : Descriptor) : calcDescriptorLength d = bodySize d % 256 := by
+  unfold calcDescriptorLength bodySize
+  repeat' apply ite_mod
+  all_goals first
+    | rfl
+    | exact nil_calc _ _ ac3_calc _
+    | (apply nil_calc; intro _; rfl)
+    | exact nil_calc _ _ extendedEvent_calc _
+
+/-- **total characterisation**: for every descriptor value (typed, user-defined, unknown, nil sub-struct) the
+declared length equals the number of body bytes exactly when the un-truncated body size fits 8 bits -/
+theorem body_fits_iff (d : Descriptor) : BodyFits d ↔ bodySize d < 256 := by
+  unfold BodyFits
+  rw [body_length, calc_length]
+  omega
+
+/-- the other direction as a finding-style statement: a body of 256 bytes or more is announced short -/
+theorem not_body_fits_of_overflow (d : Descriptor) (h : 256 ≤ bodySize d) :
+    calcDescriptorLength d < (descriptorBody d).length := by
+  rw [body_length, calc_length]; omega
+
+/-! ### one theorem per kind -/
+
+/-- evaluates the `switch d.Tag` of `bodySize` given the tag and the sub-struct: unfolds the 23 tag constants -/
+local macro "sel_kind" ht:ident hx:ident : tactic =>
+  `(tactic| simp [bodySize, $ht:ident, $hx:ident, nilOr, isUserDefinedTag, descriptorTagAC3, descriptorTagAVCVideo, descriptorTagComponent, descriptorTagContent,
+    descriptorTagDataStreamAlignment, descriptorTagEnhancedAC3, descriptorTagExtendedEvent, descriptorTagExtension,
+    descriptorTagISO639LanguageAndAudioType, descriptorTagLocalTimeOffset, descriptorTagMaximumBitrate,
+    descriptorTagNetworkName, descriptorTagParentalRating, descriptorTagPrivateDataIndicator,
+    descriptorTagPrivateDataSpecifier, descriptorTagRegistration, descriptorTagService, descriptorTagShortEvent,
+    descriptorTagStreamIdentifier, descriptorTagSubtitling, descriptorTagTeletext, descriptorTagVBIData,
+    descriptorTagVBITeletext])
+
+theorem bodySize_ac3 (d : Descriptor) (x : DescriptorAC3) (ht : d.tag = descriptorTagAC3) (hx : d.ac3 = some x) :
+    bodySize d = ac3Size x := by
+  sel_kind ht hx
+
+/-- exactness: for a `AC3` descriptor the guard is necessary and sufficient -/
+theorem body_fits_ac3_iff (d : Descriptor) (x : DescriptorAC3) (ht : d.tag = descriptorTagAC3) (hx : d.ac3 = some x) :
+    BodyFits d ↔ 1 + b2n x.hasComponentType + b2n x.hasBSID + b2n x.hasMainID + b2n x.hasASVC + x.additionalInfo.length < 256 := by
+  rw [body_fits_iff, bodySize_ac3 d x ht hx]; unfold ac3Size; omega
+
+theorem body_fits_ac3 (d : Descriptor) (x : DescriptorAC3) (ht : d.tag = descriptorTagAC3) (hx : d.ac3 = some x)
+    (hfit : 1 + b2n x.hasComponentType + b2n x.hasBSID + b2n x.hasMainID + b2n x.hasASVC + x.additionalInfo.length < 256) : BodyFits d :=
+  (body_fits_ac3_iff d x ht hx).2 hfit
+
+theorem bodySize_avc_video (d : Descriptor) (x : DescriptorAVCVideo) (ht : d.tag = descriptorTagAVCVideo) (hx : d.avcVideo = some x) :
+    bodySize d = 4 := by
+  sel_kind ht hx
+
+/-- `AVCVideo`: fixed size 4, no condition at all -/
+theorem body_fits_avc_video (d : Descriptor) (x : DescriptorAVCVideo) (ht : d.tag = descriptorTagAVCVideo) (hx : d.avcVideo = some x) :
+    BodyFits d := by
+  rw [body_fits_iff, bodySize_avc_video d x ht hx]; decide
+
+theorem bodySize_component (d : Descriptor) (x : DescriptorComponent) (ht : d.tag = descriptorTagComponent) (hx : d.component = some x) :
+    bodySize d = componentSize x := by
+  sel_kind ht hx
+
+/-- exactness: for a `Component` descriptor the guard is necessary and sufficient -/
+theorem body_fits_component_iff (d : Descriptor) (x : DescriptorComponent) (ht : d.tag = descriptorTagComponent) (hx : d.component = some x) :
+    BodyFits d ↔ 6 + x.text.length < 256 := by
+  rw [body_fits_iff, bodySize_component d x ht hx]; unfold componentSize; omega
+
+theorem body_fits_component (d : Descriptor) (x : DescriptorComponent) (ht : d.tag = descriptorTagComponent) (hx : d.component = some x)
+    (hfit : 6 + x.text.length < 256) : BodyFits d :=
+  (body_fits_component_iff d x ht hx).2 hfit
+
+theorem bodySize_content (d : Descriptor) (x : DescriptorContent) (ht : d.tag = descriptorTagContent) (hx : d.content = some x) :
+    bodySize d = contentSize x := by
+  sel_kind ht hx
+
+/-- exactness: for a `Content` descriptor the guard is necessary and sufficient -/
+theorem body_fits_content_iff (d : Descriptor) (x : DescriptorContent) (ht : d.tag = descriptorTagContent) (hx : d.content = some x) :
+    BodyFits d ↔ 2 * x.items.length < 256 := by
+  rw [body_fits_iff, bodySize_content d x ht hx]; unfold contentSize; omega
+
+theorem body_fits_content (d : Descriptor) (x : DescriptorContent) (ht : d.tag = descriptorTagContent) (hx : d.content = some x)
+    (hfit : 2 * x.items.length < 256) : BodyFits d :=
+  (body_fits_content_iff d x ht hx).2 hfit
+
+theorem bodySize_data_stream_alignment (d : Descriptor) (x : DescriptorDataStreamAlignment) (ht : d.tag = descriptorTagDataStreamAlignment) (hx : d.dataStreamAlignment = some x) :
+    bodySize d = 1 := by
+  sel_kind ht hx
+
+/-- `DataStreamAlignment`: fixed size 1, no condition at all -/
+theorem body_fits_data_stream_alignment (d : Descriptor) (x : DescriptorDataStreamAlignment) (ht : d.tag = descriptorTagDataStreamAlignment) (hx : d.dataStreamAlignment = some x) :
+    BodyFits d := by
+  rw [body_fits_iff, bodySize_data_stream_alignment d x ht hx]; decide
+
+theorem bodySize_enhanced_ac3 (d : Descriptor) (x : DescriptorEnhancedAC3) (ht : d.tag = descriptorTagEnhancedAC3) (hx : d.enhancedAC3 = some x) :
+    bodySize d = enhancedAC3Size x := by
+  sel_kind ht hx
+
+/-- exactness: for a `EnhancedAC3` descriptor the guard is necessary and sufficient -/
+theorem body_fits_enhanced_ac3_iff (d : Descriptor) (x : DescriptorEnhancedAC3) (ht : d.tag = descriptorTagEnhancedAC3) (hx : d.enhancedAC3 = some x) :
+    BodyFits d ↔ 1 + b2n x.hasComponentType + b2n x.hasBSID + b2n x.hasMainID + b2n x.hasASVC + b2n x.hasSubStream1 + b2n x.hasSubStream2 + b2n x.hasSubStream3 + x.additionalInfo.length < 256 := by
+  rw [body_fits_iff, bodySize_enhanced_ac3 d x ht hx]; unfold enhancedAC3Size; omega
+
+theorem body_fits_enhanced_ac3 (d : Descriptor) (x : DescriptorEnhancedAC3) (ht : d.tag = descriptorTagEnhancedAC3) (hx : d.enhancedAC3 = some x)
+    (hfit : 1 + b2n x.hasComponentType + b2n x.hasBSID + b2n x.hasMainID + b2n x.hasASVC + b2n x.hasSubStream1 + b2n x.hasSubStream2 + b2n x.hasSubStream3 + x.additionalInfo.length < 256) : BodyFits d :=
+  (body_fits_enhanced_ac3_iff d x ht hx).2 hfit
+
+theorem bodySize_extended_event (d : Descriptor) (x : DescriptorExtendedEvent) (ht : d.tag = descriptorTagExtendedEvent) (hx : d.extendedEvent = some x) :
+    bodySize d = extendedEventSize x := by
+  sel_kind ht hx
+
+/-- exactness: for a `ExtendedEvent` descriptor the guard is necessary and sufficient -/
+theorem body_fits_extended_event_iff (d : Descriptor) (x : DescriptorExtendedEvent) (ht : d.tag = descriptorTagExtendedEvent) (hx : d.extendedEvent = some x) :
+    BodyFits d ↔ 6 + extendedEventItemsSize x.items + x.text.length < 256 := by
+  rw [body_fits_iff, bodySize_extended_event d x ht hx]; unfold extendedEventSize; omega
+
+theorem body_fits_extended_event (d : Descriptor) (x : DescriptorExtendedEvent) (ht : d.tag = descriptorTagExtendedEvent) (hx : d.extendedEvent = some x)
+    (hfit : 6 + extendedEventItemsSize x.items + x.text.length < 256) : BodyFits d :=
+  (body_fits_extended_event_iff d x ht hx).2 hfit
+
+theorem bodySize_extension (d : Descriptor) (x : DescriptorExtension) (ht : d.tag = descriptorTagExtension) (hx : d.extension = some x) :
+    bodySize d = extensionSize x := by
+  sel_kind ht hx
+
+/-- exactness: for a `Extension` descriptor the guard is necessary and sufficient -/
+theorem body_fits_extension_iff (d : Descriptor) (x : DescriptorExtension) (ht : d.tag = descriptorTagExtension) (hx : d.extension = some x) :
+    BodyFits d ↔ extensionSize x < 256 := by
+  rw [body_fits_iff, bodySize_extension d x ht hx]
+
+/-- NOTE: this is a statement about the model's bytes. With extension tag 6 and a nil `SupplementaryAudio` the model
+emits the single extension-tag byte (size 1, so the lengths agree) where Go panics after writing that byte
+(`writeDescriptorPanics`); `TypedFits.extension` excludes that value, and
+`body_fits_extension_supplementary_audio` / `body_fits_extension_unknown` give the guards on the fields. -/
+theorem body_fits_extension (d : Descriptor) (x : DescriptorExtension) (ht : d.tag = descriptorTagExtension) (hx : d.extension = some x)
+    (hfit : extensionSize x < 256) : BodyFits d :=
+  (body_fits_extension_iff d x ht hx).2 hfit
+
+theorem bodySize_iso639_language_and_audio_type (d : Descriptor) (x : DescriptorISO639LanguageAndAudioType) (ht : d.tag = descriptorTagISO639LanguageAndAudioType) (hx : d.iso639LanguageAndAudioType = some x) :
+    bodySize d = 4 := by
+  sel_kind ht hx
+
+/-- `ISO639LanguageAndAudioType`: fixed size 4, no condition at all -/
+theorem body_fits_iso639_language_and_audio_type (d : Descriptor) (x : DescriptorISO639LanguageAndAudioType) (ht : d.tag = descriptorTagISO639LanguageAndAudioType) (hx : d.iso639LanguageAndAudioType = some x) :
+    BodyFits d := by
+  rw [body_fits_iff, bodySize_iso639_language_and_audio_type d x ht hx]; decide
+
+theorem bodySize_local_time_offset (d : Descriptor) (x : DescriptorLocalTimeOffset) (ht : d.tag = descriptorTagLocalTimeOffset) (hx : d.localTimeOffset = some x) :
+    bodySize d = localTimeOffsetSize x := by
+  sel_kind ht hx
+
+/-- exactness: for a `LocalTimeOffset` descriptor the guard is necessary and sufficient -/
+theorem body_fits_local_time_offset_iff (d : Descriptor) (x : DescriptorLocalTimeOffset) (ht : d.tag = descriptorTagLocalTimeOffset) (hx : d.localTimeOffset = some x) :
+    BodyFits d ↔ 13 * x.items.length < 256 := by
+  rw [body_fits_iff, bodySize_local_time_offset d x ht hx]; unfold localTimeOffsetSize; omega
+
+theorem body_fits_local_time_offset (d : Descriptor) (x : DescriptorLocalTimeOffset) (ht : d.tag = descriptorTagLocalTimeOffset) (hx : d.localTimeOffset = some x)
+    (hfit : 13 * x.items.length < 256) : BodyFits d :=
+  (body_fits_local_time_offset_iff d x ht hx).2 hfit
+
+theorem bodySize_maximum_bitrate (d : Descriptor) (x : DescriptorMaximumBitrate) (ht : d.tag = descriptorTagMaximumBitrate) (hx : d.maximumBitrate = some x) :
+    bodySize d = 3 := by
+  sel_kind ht hx
+
+/-- `MaximumBitrate`: fixed size 3, no condition at all -/
+theorem body_fits_maximum_bitrate (d : Descriptor) (x : DescriptorMaximumBitrate) (ht : d.tag = descriptorTagMaximumBitrate) (hx : d.maximumBitrate = some x) :
+    BodyFits d := by
+  rw [body_fits_iff, bodySize_maximum_bitrate d x ht hx]; decide
+
+theorem bodySize_network_name (d : Descriptor) (x : DescriptorNetworkName) (ht : d.tag = descriptorTagNetworkName) (hx : d.networkName = some x) :
+    bodySize d = networkNameSize x := by
+  sel_kind ht hx
+
+/-- exactness: for a `NetworkName` descriptor the guard is necessary and sufficient -/
+theorem body_fits_network_name_iff (d : Descriptor) (x : DescriptorNetworkName) (ht : d.tag = descriptorTagNetworkName) (hx : d.networkName = some x) :
+    BodyFits d ↔ x.name.length < 256 := by
+  rw [body_fits_iff, bodySize_network_name d x ht hx]; unfold networkNameSize; omega
+
+theorem body_fits_network_name (d : Descriptor) (x : DescriptorNetworkName) (ht : d.tag = descriptorTagNetworkName) (hx : d.networkName = some x)
+    (hfit : x.name.length < 256) : BodyFits d :=
+  (body_fits_network_name_iff d x ht hx).2 hfit
+
+theorem bodySize_parental_rating (d : Descriptor) (x : DescriptorParentalRating) (ht : d.tag = descriptorTagParentalRating) (hx : d.parentalRating = some x) :
+    bodySize d = parentalRatingSize x := by
+  sel_kind ht hx
+
+/-- exactness: for a `ParentalRating` descriptor the guard is necessary and sufficient -/
+theorem body_fits_parental_rating_iff (d : Descriptor) (x : DescriptorParentalRating) (ht : d.tag = descriptorTagParentalRating) (hx : d.parentalRating = some x) :
+    BodyFits d ↔ 4 * x.items.length < 256 := by
+  rw [body_fits_iff, bodySize_parental_rating d x ht hx]; unfold parentalRatingSize; omega
+
+theorem body_fits_parental_rating (d : Descriptor) (x : DescriptorParentalRating) (ht : d.tag = descriptorTagParentalRating) (hx : d.parentalRating = some x)
+    (hfit : 4 * x.items.length < 256) : BodyFits d :=
+  (body_fits_parental_rating_iff d x ht hx).2 hfit
+
+theorem bodySize_private_data_indicator (d : Descriptor) (x : DescriptorPrivateDataIndicator) (ht : d.tag = descriptorTagPrivateDataIndicator) (hx : d.privateDataIndicator = some x) :
+    bodySize d = 4 := by
+  sel_kind ht hx
+
+/-- `PrivateDataIndicator`: fixed size 4, no condition at all -/
+theorem body_fits_private_data_indicator (d : Descriptor) (x : DescriptorPrivateDataIndicator) (ht : d.tag = descriptorTagPrivateDataIndicator) (hx : d.privateDataIndicator = some x) :
+    BodyFits d := by
+  rw [body_fits_iff, bodySize_private_data_indicator d x ht hx]; decide
+
+theorem bodySize_private_data_specifier (d : Descriptor) (x : DescriptorPrivateDataSpecifier) (ht : d.tag = descriptorTagPrivateDataSpecifier) (hx : d.privateDataSpecifier = some x) :
+    bodySize d = 4 := by
+  sel_kind ht hx
+
+/-- `PrivateDataSpecifier`: fixed size 4, no condition at all -/
+theorem body_fits_private_data_specifier (d : Descriptor) (x : DescriptorPrivateDataSpecifier) (ht : d.tag = descriptorTagPrivateDataSpecifier) (hx : d.privateDataSpecifier = some x) :
+    BodyFits d := by
+  rw [body_fits_iff, bodySize_private_data_specifier d x ht hx]; decide
+
+theorem bodySize_registration (d : Descriptor) (x : DescriptorRegistration) (ht : d.tag = descriptorTagRegistration) (hx : d.registration = some x) :
+    bodySize d = registrationSize x := by
+  sel_kind ht hx
+
+/-- exactness: for a `Registration` descriptor the guard is necessary and sufficient -/
+theorem body_fits_registration_iff (d : Descriptor) (x : DescriptorRegistration) (ht : d.tag = descriptorTagRegistration) (hx : d.registration = some x) :
+    BodyFits d ↔ 4 + x.additionalIdentificationInfo.length < 256 := by
+  rw [body_fits_iff, bodySize_registration d x ht hx]; unfold registrationSize; omega
+
+theorem body_fits_registration (d : Descriptor) (x : DescriptorRegistration) (ht : d.tag = descriptorTagRegistration) (hx : d.registration = some x)
+    (hfit : 4 + x.additionalIdentificationInfo.length < 256) : BodyFits d :=
+  (body_fits_registration_iff d x ht hx).2 hfit
+
+theorem bodySize_service (d : Descriptor) (x : DescriptorService) (ht : d.tag = descriptorTagService) (hx : d.service = some x) :
+    bodySize d = serviceSize x := by
+  sel_kind ht hx
+
+/-- exactness: for a `Service` descriptor the guard is necessary and sufficient -/
+theorem body_fits_service_iff (d : Descriptor) (x : DescriptorService) (ht : d.tag = descriptorTagService) (hx : d.service = some x) :
+    BodyFits d ↔ 3 + x.name.length + x.provider.length < 256 := by
+  rw [body_fits_iff, bodySize_service d x ht hx]; unfold serviceSize; omega
+
+theorem body_fits_service (d : Descriptor) (x : DescriptorService) (ht : d.tag = descriptorTagService) (hx : d.service = some x)
+    (hfit : 3 + x.name.length + x.provider.length < 256) : BodyFits d :=
+  (body_fits_service_iff d x ht hx).2 hfit
+
+theorem bodySize_short_event (d : Descriptor) (x : DescriptorShortEvent) (ht : d.tag = descriptorTagShortEvent) (hx : d.shortEvent = some x) :
+    bodySize d = shortEventSize x := by
+  sel_kind ht hx
+
+/-- exactness: for a `ShortEvent` descriptor the guard is necessary and sufficient -/
+theorem body_fits_short_event_iff (d : Descriptor) (x : DescriptorShortEvent) (ht : d.tag = descriptorTagShortEvent) (hx : d.shortEvent = some x) :
+    BodyFits d ↔ 5 + x.eventName.length + x.text.length < 256 := by
+  rw [body_fits_iff, bodySize_short_event d x ht hx]; unfold shortEventSize; omega
+
+theorem body_fits_short_event (d : Descriptor) (x : DescriptorShortEvent) (ht : d.tag = descriptorTagShortEvent) (hx : d.shortEvent = some x)
+    (hfit : 5 + x.eventName.length + x.text.length < 256) : BodyFits d :=
+  (body_fits_short_event_iff d x ht hx).2 hfit
+
+theorem bodySize_stream_identifier (d : Descriptor) (x : DescriptorStreamIdentifier) (ht : d.tag = descriptorTagStreamIdentifier) (hx : d.streamIdentifier = some x) :
+    bodySize d = 1 := by
+  sel_kind ht hx
+
+/-- `StreamIdentifier`: fixed size 1, no condition at all -/
+theorem body_fits_stream_identifier (d : Descriptor) (x : DescriptorStreamIdentifier) (ht : d.tag = descriptorTagStreamIdentifier) (hx : d.streamIdentifier = some x) :
+    BodyFits d := by
+  rw [body_fits_iff, bodySize_stream_identifier d x ht hx]; decide
+
+theorem bodySize_subtitling (d : Descriptor) (x : DescriptorSubtitling) (ht : d.tag = descriptorTagSubtitling) (hx : d.subtitling = some x) :
+    bodySize d = subtitlingSize x := by
+  sel_kind ht hx
+
+/-- exactness: for a `Subtitling` descriptor the guard is necessary and sufficient -/
+theorem body_fits_subtitling_iff (d : Descriptor) (x : DescriptorSubtitling) (ht : d.tag = descriptorTagSubtitling) (hx : d.subtitling = some x) :
+    BodyFits d ↔ 8 * x.items.length < 256 := by
+  rw [body_fits_iff, bodySize_subtitling d x ht hx]; unfold subtitlingSize; omega
+
+theorem body_fits_subtitling (d : Descriptor) (x : DescriptorSubtitling) (ht : d.tag = descriptorTagSubtitling) (hx : d.subtitling = some x)
+    (hfit : 8 * x.items.length < 256) : BodyFits d :=
+  (body_fits_subtitling_iff d x ht hx).2 hfit
+
+theorem bodySize_teletext (d : Descriptor) (x : DescriptorTeletext) (ht : d.tag = descriptorTagTeletext) (hx : d.teletext = some x) :
+    bodySize d = teletextSize x := by
+  sel_kind ht hx
+
+/-- exactness: for a `Teletext` descriptor the guard is necessary and sufficient -/
+theorem body_fits_teletext_iff (d : Descriptor) (x : DescriptorTeletext) (ht : d.tag = descriptorTagTeletext) (hx : d.teletext = some x) :
+    BodyFits d ↔ 5 * x.items.length < 256 := by
+  rw [body_fits_iff, bodySize_teletext d x ht hx]; unfold teletextSize; omega
+
+theorem body_fits_teletext (d : Descriptor) (x : DescriptorTeletext) (ht : d.tag = descriptorTagTeletext) (hx : d.teletext = some x)
+    (hfit : 5 * x.items.length < 256) : BodyFits d :=
+  (body_fits_teletext_iff d x ht hx).2 hfit
+
+theorem bodySize_vbi_data (d : Descriptor) (x : DescriptorVBIData) (ht : d.tag = descriptorTagVBIData) (hx : d.vbiData = some x) :
+    bodySize d = vbiDataSize x := by
+  sel_kind ht hx
+
+/-- exactness: for a `VBIData` descriptor the guard is necessary and sufficient -/
+theorem body_fits_vbi_data_iff (d : Descriptor) (x : DescriptorVBIData) (ht : d.tag = descriptorTagVBIData) (hx : d.vbiData = some x) :
+    BodyFits d ↔ vbiDataServicesSize x.services < 256 := by
+  rw [body_fits_iff, bodySize_vbi_data d x ht hx]; unfold vbiDataSize; omega
+
+theorem body_fits_vbi_data (d : Descriptor) (x : DescriptorVBIData) (ht : d.tag = descriptorTagVBIData) (hx : d.vbiData = some x)
+    (hfit : vbiDataServicesSize x.services < 256) : BodyFits d :=
+  (body_fits_vbi_data_iff d x ht hx).2 hfit
+
+theorem bodySize_vbi_teletext (d : Descriptor) (x : DescriptorTeletext) (ht : d.tag = descriptorTagVBITeletext) (hx : d.vbiTeletext = some x) :
+    bodySize d = teletextSize x := by
+  sel_kind ht hx
+
+/-- exactness: for a `VBITeletext` descriptor the guard is necessary and sufficient -/
+theorem body_fits_vbi_teletext_iff (d : Descriptor) (x : DescriptorTeletext) (ht : d.tag = descriptorTagVBITeletext) (hx : d.vbiTeletext = some x) :
+    BodyFits d ↔ 5 * x.items.length < 256 := by
+  rw [body_fits_iff, bodySize_vbi_teletext d x ht hx]; unfold teletextSize; omega
+
+theorem body_fits_vbi_teletext (d : Descriptor) (x : DescriptorTeletext) (ht : d.tag = descriptorTagVBITeletext) (hx : d.vbiTeletext = some x)
+    (hfit : 5 * x.items.length < 256) : BodyFits d :=
+  (body_fits_vbi_teletext_iff d x ht hx).2 hfit
+
+/-- extension descriptor carrying supplementary audio (extension tag 6), guard in terms of the fields -/
+theorem body_fits_extension_supplementary_audio (d : Descriptor) (e : DescriptorExtension)
+    (s : DescriptorExtensionSupplementaryAudio) (ht : d.tag = descriptorTagExtension) (hx : d.extension = some e)
+    (he : e.tag = descriptorTagExtensionSupplementaryAudio) (hs : e.supplementaryAudio = some s)
+    (hfit : 2 + (if s.hasLanguageCode then 3 else 0) + s.privateData.length < 256) : BodyFits d := by
+  apply body_fits_extension d e ht hx
+  simp only [extensionSize, he, hs, nilOr, calcDescriptorExtensionSupplementaryAudioLength, if_true]
+  omega
+
+/-- extension descriptor with any other extension tag: the raw bytes -/
+theorem body_fits_extension_unknown (d : Descriptor) (e : DescriptorExtension) (b : Bytes)
+    (ht : d.tag = descriptorTagExtension) (hx : d.extension = some e)
+    (he : e.tag ≠ descriptorTagExtensionSupplementaryAudio) (hu : e.unknown = some b)
+    (hfit : 1 + b.length < 256) : BodyFits d := by
+  apply body_fits_extension d e ht hx
+  simp only [extensionSize, he, hu, nilOr, if_false]
+  exact hfit
+
+/-- the default branch of the `switch`: a tag that is neither user-defined nor one of the 23 typed tags -/
+theorem bodySize_unknown (d : Descriptor) (x : DescriptorUnknown) (hu : isUserDefinedTag d.tag = false)
+    (hk : d.tag ∉ knownDescriptorTags) (hx : d.unknown = some x) : bodySize d = x.content.length := by
+  simp only [knownDescriptorTags, List.mem_cons, List.not_mem_nil, or_false, not_or] at hk
+  obtain ⟨h1, h2, h3, h4, h5, h6, h7, h8, h9, h10, h11, h12, h13, h14, h15, h16, h17, h18, h19, h20, h21, h22, h23⟩ := hk
+  simp [bodySize, hu, hx, nilOr, unknownSize, *]
+
+theorem body_fits_unknown_iff (d : Descriptor) (x : DescriptorUnknown) (hu : isUserDefinedTag d.tag = false)
+    (hk : d.tag ∉ knownDescriptorTags) (hx : d.unknown = some x) : BodyFits d ↔ x.content.length < 256 := by
+  rw [body_fits_iff, bodySize_unknown d x hu hk hx]
+
+theorem body_fits_unknown (d : Descriptor) (x : DescriptorUnknown) (hu : isUserDefinedTag d.tag = false)
+    (hk : d.tag ∉ knownDescriptorTags) (hx : d.unknown = some x) (hfit : x.content.length < 256) : BodyFits d :=
+  (body_fits_unknown_iff d x hu hk hx).2 hfit
+
+/-! ### summary -/
+
+/-- the typed kinds with their guards: one constructor per kind (a 24-way disjunction) -/
+inductive TypedFits (d : Descriptor) : Prop
+  | ac3 (x : DescriptorAC3) (ht : d.tag = descriptorTagAC3) (hx : d.ac3 = some x)
+      (hfit : 1 + b2n x.hasComponentType + b2n x.hasBSID + b2n x.hasMainID + b2n x.hasASVC + x.additionalInfo.length < 256)
+  | avc_video (x : DescriptorAVCVideo) (ht : d.tag = descriptorTagAVCVideo) (hx : d.avcVideo = some x)
+  | component (x : DescriptorComponent) (ht : d.tag = descriptorTagComponent) (hx : d.component = some x)
+      (hfit : 6 + x.text.length < 256)
+  | content (x : DescriptorContent) (ht : d.tag = descriptorTagContent) (hx : d.content = some x)
+      (hfit : 2 * x.items.length < 256)
+  | data_stream_alignment (x : DescriptorDataStreamAlignment) (ht : d.tag = descriptorTagDataStreamAlignment) (hx : d.dataStreamAlignment = some x)
+  | enhanced_ac3 (x : DescriptorEnhancedAC3) (ht : d.tag = descriptorTagEnhancedAC3) (hx : d.enhancedAC3 = some x)
+      (hfit : 1 + b2n x.hasComponentType + b2n x.hasBSID + b2n x.hasMainID + b2n x.hasASVC + b2n x.hasSubStream1 + b2n x.hasSubStream2 + b2n x.hasSubStream3 + x.additionalInfo.length < 256)
+  | extended_event (x : DescriptorExtendedEvent) (ht : d.tag = descriptorTagExtendedEvent) (hx : d.extendedEvent = some x)
+      (hfit : 6 + extendedEventItemsSize x.items + x.text.length < 256)
+  | extension (x : DescriptorExtension) (ht : d.tag = descriptorTagExtension) (hx : d.extension = some x)
+      (hfit : extensionSize x < 256) (hnp : writeDescriptorPanics d = false)
+  | iso639_language_and_audio_type (x : DescriptorISO639LanguageAndAudioType) (ht : d.tag = descriptorTagISO639LanguageAndAudioType) (hx : d.iso639LanguageAndAudioType = some x)
+  | local_time_offset (x : DescriptorLocalTimeOffset) (ht : d.tag = descriptorTagLocalTimeOffset) (hx : d.localTimeOffset = some x)
+      (hfit : 13 * x.items.length < 256)
+  | maximum_bitrate (x : DescriptorMaximumBitrate) (ht : d.tag = descriptorTagMaximumBitrate) (hx : d.maximumBitrate = some x)
+  | network_name (x : DescriptorNetworkName) (ht : d.tag = descriptorTagNetworkName) (hx : d.networkName = some x)
+      (hfit : x.name.length < 256)
+  | parental_rating (x : DescriptorParentalRating) (ht : d.tag = descriptorTagParentalRating) (hx : d.parentalRating = some x)
+      (hfit : 4 * x.items.length < 256)
+  | private_data_indicator (x : DescriptorPrivateDataIndicator) (ht : d.tag = descriptorTagPrivateDataIndicator) (hx : d.privateDataIndicator = some x)
+  | private_data_specifier (x : DescriptorPrivateDataSpecifier) (ht : d.tag = descriptorTagPrivateDataSpecifier) (hx : d.privateDataSpecifier = some x)
+  | registration (x : DescriptorRegistration) (ht : d.tag = descriptorTagRegistration) (hx : d.registration = some x)
+      (hfit : 4 + x.additionalIdentificationInfo.length < 256)
+  | service (x : DescriptorService) (ht : d.tag = descriptorTagService) (hx : d.service = some x)
+      (hfit : 3 + x.name.length + x.provider.length < 256)
+  | short_event (x : DescriptorShortEvent) (ht : d.tag = descriptorTagShortEvent) (hx : d.shortEvent = some x)
+      (hfit : 5 + x.eventName.length + x.text.length < 256)
+  | stream_identifier (x : DescriptorStreamIdentifier) (ht : d.tag = descriptorTagStreamIdentifier) (hx : d.streamIdentifier = some x)
+  | subtitling (x : DescriptorSubtitling) (ht : d.tag = descriptorTagSubtitling) (hx : d.subtitling = some x)
+      (hfit : 8 * x.items.length < 256)
+  | teletext (x : DescriptorTeletext) (ht : d.tag = descriptorTagTeletext) (hx : d.teletext = some x)
+      (hfit : 5 * x.items.length < 256)
+  | vbi_data (x : DescriptorVBIData) (ht : d.tag = descriptorTagVBIData) (hx : d.vbiData = some x)
+      (hfit : vbiDataServicesSize x.services < 256)
+  | vbi_teletext (x : DescriptorTeletext) (ht : d.tag = descriptorTagVBITeletext) (hx : d.vbiTeletext = some x)
+      (hfit : 5 * x.items.length < 256)
+  | unknown (x : DescriptorUnknown) (hu : isUserDefinedTag d.tag = false) (hk : d.tag ∉ knownDescriptorTags)
+      (hx : d.unknown = some x) (hfit : x.content.length < 256)
+
+/-- **C14 for the typed kinds**: every typed descriptor whose body fits 255 bytes announces exactly its body -/
+theorem body_fits_typed (d : Descriptor) (h : TypedFits d) : BodyFits d := by
+  cases h with
+  | ac3 x ht hx hfit => exact body_fits_ac3 d x ht hx hfit
+  | avc_video x ht hx => exact body_fits_avc_video d x ht hx
+  | component x ht hx hfit => exact body_fits_component d x ht hx hfit
+  | content x ht hx hfit => exact body_fits_content d x ht hx hfit
+  | data_stream_alignment x ht hx => exact body_fits_data_stream_alignment d x ht hx
+  | enhanced_ac3 x ht hx hfit => exact body_fits_enhanced_ac3 d x ht hx hfit
+  | extended_event x ht hx hfit => exact body_fits_extended_event d x ht hx hfit
+  | extension x ht hx hfit _ => exact body_fits_extension d x ht hx hfit
+  | iso639_language_and_audio_type x ht hx => exact body_fits_iso639_language_and_audio_type d x ht hx
+  | local_time_offset x ht hx hfit => exact body_fits_local_time_offset d x ht hx hfit
+  | maximum_bitrate x ht hx => exact body_fits_maximum_bitrate d x ht hx
+  | network_name x ht hx hfit => exact body_fits_network_name d x ht hx hfit
+  | parental_rating x ht hx hfit => exact body_fits_parental_rating d x ht hx hfit
+  | private_data_indicator x ht hx => exact body_fits_private_data_indicator d x ht hx
+  | private_data_specifier x ht hx => exact body_fits_private_data_specifier d x ht hx
+  | registration x ht hx hfit => exact body_fits_registration d x ht hx hfit
+  | service x ht hx hfit => exact body_fits_service d x ht hx hfit
+  | short_event x ht hx hfit => exact body_fits_short_event d x ht hx hfit
+  | stream_identifier x ht hx => exact body_fits_stream_identifier d x ht hx
+  | subtitling x ht hx hfit => exact body_fits_subtitling d x ht hx hfit
+  | teletext x ht hx hfit => exact body_fits_teletext d x ht hx hfit
+  | vbi_data x ht hx hfit => exact body_fits_vbi_data d x ht hx hfit
+  | vbi_teletext x ht hx hfit => exact body_fits_vbi_teletext d x ht hx hfit
+  | unknown x hu hk hx hfit => exact body_fits_unknown d x hu hk hx hfit
+
+/-- and so the bytes on the wire: tag, the length of the body, the body -/
+theorem typed_length_matches (d : Descriptor) (h : TypedFits d) :
+    (writeDescriptor d).length = 2 + (descriptorBody d).length ∧
+    (writeDescriptor d).getD 1 0 = (descriptorBody d).length := by
+  have hb := body_fits_typed d h
+  have hm := length_matches d hb
+  have hlt : bodySize d < 256 := (body_fits_iff d).1 hb
+  unfold BodyFits at hb
+  rw [hb]
+  refine ⟨hm.1, ?_⟩
+  rw [hm.2.1, calc_length]
+  omega
+
+
+/-! ### non-vacuity: one concrete, non-trivial descriptor per kind satisfying the hypotheses, and the bytes written -/
+
+example : BodyFits { tag := 0x6a, ac3 := some { hasBSID := true, bsid := 8, hasASVC := true, asvc := 1, additionalInfo := [1, 2] } } :=
+  body_fits_ac3 _ _ rfl rfl (by decide)
+example : writeDescriptor { tag := 0x6a, ac3 := some { hasBSID := true, bsid := 8, hasASVC := true, asvc := 1, additionalInfo := [1, 2] } }
+    = [0x6a, 5, 0x5f, 8, 1, 1, 2] := by decide
+example : BodyFits { tag := 0x28, avcVideo := some { profileIDC := 100, levelIDC := 40, constraintSet1Flag := true, compatibleFlags := 3 } } :=
+  body_fits_avc_video _ _ rfl rfl
+example : writeDescriptor { tag := 0x28, avcVideo := some { profileIDC := 100, levelIDC := 40, constraintSet1Flag := true, compatibleFlags := 3 } }
+    = [0x28, 4, 100, 0x43, 40, 0x3f] := by decide
+example : BodyFits { tag := 0x50, component := some { streamContent := 1, componentType := 3, componentTag := 7, iso639LanguageCode := [0x65, 0x6e, 0x67], text := [0x41, 0x42] } } :=
+  body_fits_component _ _ rfl rfl (by decide)
+/-- a language code of the wrong length still gives a correct length byte (`WriteBytesN` pads / cuts) -/
+example : writeDescriptor { tag := 0x50, component := some { streamContent := 1, componentType := 3, componentTag := 7, iso639LanguageCode := [0x65], text := [0x41, 0x42] } }
+    = [0x50, 8, 0x01, 3, 7, 0x65, 0, 0, 0x41, 0x42] := by decide
+example : BodyFits { tag := 0x54, content := some { items := [{ contentNibbleLevel1 := 1, contentNibbleLevel2 := 2, userByte := 3 }, { contentNibbleLevel1 := 4 }] } } :=
+  body_fits_content _ _ rfl rfl (by decide)
+example : writeDescriptor { tag := 0x54, content := some { items := [{ contentNibbleLevel1 := 1, contentNibbleLevel2 := 2, userByte := 3 }, { contentNibbleLevel1 := 4 }] } }
+    = [0x54, 4, 0x12, 3, 0x40, 0] := by decide
+example : BodyFits { tag := 0x06, dataStreamAlignment := some { type := 2 } } :=
+  body_fits_data_stream_alignment _ _ rfl rfl
+example : BodyFits { tag := 0x7a, enhancedAC3 := some { hasComponentType := true, componentType := 9, hasSubStream2 := true, subStream2 := 5, mixInfoExists := true, additionalInfo := [0xaa] } } :=
+  body_fits_enhanced_ac3 _ _ rfl rfl (by decide)
+example : writeDescriptor { tag := 0x7a, enhancedAC3 := some { hasComponentType := true, componentType := 9, hasSubStream2 := true, subStream2 := 5, mixInfoExists := true, additionalInfo := [0xaa] } }
+    = [0x7a, 4, 0x8a, 9, 5, 0xaa] := by decide
+example : BodyFits { tag := 0x4e, extendedEvent := some { number := 1, lastDescriptorNumber := 2, iso639LanguageCode := [0x65, 0x6e, 0x67], items := [{ description := [1, 2], content := [3] }, { description := [], content := [4, 5] }], text := [6, 7, 8] } } :=
+  body_fits_extended_event _ _ rfl rfl (by decide)
+example : writeDescriptor { tag := 0x4e, extendedEvent := some { number := 1, lastDescriptorNumber := 2, iso639LanguageCode := [0x65, 0x6e, 0x67], items := [{ description := [1, 2], content := [3] }, { description := [], content := [4, 5] }], text := [6, 7, 8] } }
+    = [0x4e, 18, 0x12, 0x65, 0x6e, 0x67, 9, 2, 1, 2, 1, 3, 0, 2, 4, 5, 3, 6, 7, 8] := by decide
+example : BodyFits { tag := 0x7f, extension := some { tag := 6, supplementaryAudio := some { mixType := true, editorialClassification := 2, hasLanguageCode := true, languageCode := [0x65, 0x6e, 0x67], privateData := [9] } } } :=
+  body_fits_extension_supplementary_audio _ _ _ rfl rfl rfl rfl (by decide)
+example : writeDescriptor { tag := 0x7f, extension := some { tag := 6, supplementaryAudio := some { mixType := true, editorialClassification := 2, hasLanguageCode := true, languageCode := [0x65, 0x6e, 0x67], privateData := [9] } } }
+    = [0x7f, 6, 6, 0x8b, 0x65, 0x6e, 0x67, 9] := by decide
+example : BodyFits { tag := 0x7f, extension := some { tag := 0x20, unknown := some [1, 2, 3] } } :=
+  body_fits_extension_unknown _ _ _ rfl rfl (by decide) rfl (by decide)
+example : BodyFits { tag := 0x0a, iso639LanguageAndAudioType := some { language := [0x66, 0x72, 0x61], type := 1 } } :=
+  body_fits_iso639_language_and_audio_type _ _ rfl rfl
+example : BodyFits { tag := 0x58, localTimeOffset := some { items := [{ countryCode := [0x46, 0x52, 0x41], countryRegionID := 1, localTimeOffset := 3600000000000, timeOfChange := 1000000000, nextTimeOffset := 7200000000000 }] } } :=
+  body_fits_local_time_offset _ _ rfl rfl (by decide)
+example : BodyFits { tag := 0x0e, maximumBitrate := some { bitrate := 5000000 } } :=
+  body_fits_maximum_bitrate _ _ rfl rfl
+example : writeDescriptor { tag := 0x0e, maximumBitrate := some { bitrate := 5000000 } } = [0x0e, 3, 0xc1, 0x86, 0xa0] := by decide
+example : BodyFits { tag := 0x40, networkName := some { name := [0x6e, 0x65, 0x74] } } :=
+  body_fits_network_name _ _ rfl rfl (by decide)
+example : BodyFits { tag := 0x55, parentalRating := some { items := [{ countryCode := [0x46, 0x52, 0x41], rating := 4 }, { countryCode := [0x47, 0x42, 0x52], rating := 9 }] } } :=
+  body_fits_parental_rating _ _ rfl rfl (by decide)
+example : BodyFits { tag := 0x0f, privateDataIndicator := some { indicator := 0x01020304 } } :=
+  body_fits_private_data_indicator _ _ rfl rfl
+example : BodyFits { tag := 0x5f, privateDataSpecifier := some { specifier := 0x28 } } :=
+  body_fits_private_data_specifier _ _ rfl rfl
+example : BodyFits { tag := 0x05, registration := some { formatIdentifier := 0x48444d56, additionalIdentificationInfo := [1, 2] } } :=
+  body_fits_registration _ _ rfl rfl (by decide)
+example : writeDescriptor { tag := 0x05, registration := some { formatIdentifier := 0x48444d56, additionalIdentificationInfo := [1, 2] } }
+    = [0x05, 6, 0x48, 0x44, 0x4d, 0x56, 1, 2] := by decide
+example : BodyFits { tag := 0x48, service := some { type := 1, provider := [0x70, 0x72], name := [0x6e, 0x61, 0x6d] } } :=
+  body_fits_service _ _ rfl rfl (by decide)
+example : writeDescriptor { tag := 0x48, service := some { type := 1, provider := [0x70, 0x72], name := [0x6e, 0x61, 0x6d] } }
+    = [0x48, 8, 1, 2, 0x70, 0x72, 3, 0x6e, 0x61, 0x6d] := by decide
+example : BodyFits { tag := 0x4d, shortEvent := some { language := [0x65, 0x6e, 0x67], eventName := [1, 2], text := [3] } } :=
+  body_fits_short_event _ _ rfl rfl (by decide)
+example : BodyFits { tag := 0x52, streamIdentifier := some { componentTag := 7 } } :=
+  body_fits_stream_identifier _ _ rfl rfl
+example : BodyFits { tag := 0x59, subtitling := some { items := [{ language := [0x65, 0x6e, 0x67], type := 0x10, compositionPageID := 1, ancillaryPageID := 0x1234 }] } } :=
+  body_fits_subtitling _ _ rfl rfl (by decide)
+example : writeDescriptor { tag := 0x59, subtitling := some { items := [{ language := [0x65, 0x6e, 0x67], type := 0x10, compositionPageID := 1, ancillaryPageID := 0x1234 }] } }
+    = [0x59, 8, 0x65, 0x6e, 0x67, 0x10, 0, 1, 0x12, 0x34] := by decide
+example : BodyFits { tag := 0x56, teletext := some { items := [{ language := [0x65, 0x6e, 0x67], type := 2, magazine := 1, page := 88 }] } } :=
+  body_fits_teletext _ _ rfl rfl (by decide)
+example : writeDescriptor { tag := 0x56, teletext := some { items := [{ language := [0x65, 0x6e, 0x67], type := 2, magazine := 1, page := 88 }] } }
+    = [0x56, 5, 0x65, 0x6e, 0x67, 0x11, 0x88] := by decide
+example : BodyFits { tag := 0x45, vbiData := some { services := [{ dataServiceID := 1, descriptors := [{ fieldParity := true, lineOffset := 7 }, { lineOffset := 8 }] }, { dataServiceID := 3, descriptors := [] }] } } :=
+  body_fits_vbi_data _ _ rfl rfl (by decide)
+/-- a known service with two lines (4 bytes) and an unknown service id (3 bytes: id, 1, 0xff): 7, not `3 * 2` -/
+example : writeDescriptor { tag := 0x45, vbiData := some { services := [{ dataServiceID := 1, descriptors := [{ fieldParity := true, lineOffset := 7 }, { lineOffset := 8 }] }, { dataServiceID := 3, descriptors := [] }] } }
+    = [0x45, 7, 1, 2, 0xe7, 0xc8, 3, 1, 0xff] := by decide
+example : BodyFits { tag := 0x46, vbiTeletext := some { items := [{ language := [0x65, 0x6e, 0x67], type := 1, magazine := 0, page := 0 }, { language := [0x66, 0x72, 0x61] }] } } :=
+  body_fits_vbi_teletext _ _ rfl rfl (by decide)
+example : BodyFits { tag := 0x13, unknown := some { tag := 0x13, content := [1, 2, 3, 4] } } :=
+  body_fits_unknown _ _ rfl (by decide) rfl (by decide)
+example : TypedFits { tag := 0x7f, extension := some { tag := 0x20, unknown := some [1, 2, 3] } } :=
+  .extension _ rfl rfl (by decide) rfl
+example : TypedFits { tag := 0x48, service := some { type := 1, provider := [0x70, 0x72], name := [0x6e, 0x61, 0x6d] } } :=
+  .service _ rfl rfl (by decide)
+/-- a typed tag whose sub-struct is nil: length 0, no body (covered by `body_fits_iff`) -/
+example : BodyFits { tag := 0x48 } := (body_fits_iff _).2 (by decide)
+/-- the guard is needed: a 256-byte network name is announced with length 0 while 256 bytes are the body -/
+example : calcDescriptorLength { tag := 0x40, networkName := some { name := List.replicate 256 0x41 } } = 0 ∧
+    (descriptorBody { tag := 0x40, networkName := some { name := List.replicate 256 0x41 } }).length = 256 := by
+  decide +kernel
+
+end Typed
 
 end Astits.C14
